@@ -59,6 +59,7 @@ M = {
     "lsub": {"op": "lsub"},
     "store3del": {"op": "store", "set": "3", "mode": "+", "flags": "\\Deleted"},
     "store2flag": {"op": "store", "set": "2", "mode": "+", "flags": "\\Flagged"},
+    "store2del": {"op": "store", "set": "2", "mode": "+", "flags": "\\Deleted"},
     "selother": {"op": "select", "m": "other"},
     "store12": {"op": "store", "set": "1:2", "mode": "+", "flags": "\\Flagged"},
     "selinbox": {"op": "select", "m": "INBOX"},
@@ -138,6 +139,8 @@ def scenarios(tier):
         # entering IDLE flushes what is waiting and then switches to immediate delivery: flag changes made meanwhile keep their order
         dict(scn("store,store|idle,done slow reader", SEL_AB + DEL1[:1], A=["store1", "store1y"], B=["idle", "done"]), slow=["B"]),
         dict(scn("expunge|idle,done slow reader", SEL_AB + DEL1[:1], A=["expunge"], B=["idle", "done"]), slow=["B"]),
+        # an EXPUNGE that finds nothing to do when it is admitted, next to a STORE that is about to give it something
+        scn("3:store2del|expunge|noop", SEL_AB + [{"s": "C", "op": "select", "m": "INBOX"}], A=["store2del"], C=["expunge"], B=["noop"]),
         # a notification is being pushed to an idling session that reads slowly while the set of sessions on the mailbox changes
         dict(scn("3:store|select, idling slow reader", SEL_AB + [{"s": "B", "op": "idle"}], A=["store1"], C=["selinbox"]), slow=["B"]),
         dict(scn("3:expunge|close, idling slow reader", SEL_AB + [{"s": "C", "op": "select", "m": "INBOX"}] + DEL1[:1] + [{"s": "B", "op": "idle"}], A=["expunge"], C=["close"]), slow=["B"]),
